@@ -411,13 +411,117 @@ func realCase(r *evid.Run, dir string, cs int64) {
 	}
 }
 
+// countMgr wraps a REAL migration manager (wtxmgr / waddrmgr) and records which
+// of its migrations migration.Upgrade invokes; optionally makes one fail after
+// it ran.
+type countMgr struct {
+	migration.Manager
+	calls  *[]uint32
+	failAt uint32
+}
+
+func (c countMgr) Versions() []migration.Version {
+	vs := c.Manager.Versions()
+	out := make([]migration.Version, len(vs))
+	copy(out, vs)
+	for i := range out {
+		f, n := out[i].Migration, out[i].Number
+		if f == nil {
+			continue
+		}
+		out[i].Migration = func(b walletdb.ReadWriteBucket) error {
+			*c.calls = append(*c.calls, n)
+			if err := f(b); err != nil {
+				return err
+			}
+			if n == c.failAt {
+				return errors.New("injected failure after the migration ran")
+			}
+			return nil
+		}
+	}
+	return out
+}
+
+// realCounted: the real managers' own version tables, driven repeatedly inside
+// one process: a failed attempt, the retry, an already up-to-date store.  Each
+// pending migration of the real table must be invoked exactly once per attempt,
+// in ascending order, whatever earlier Upgrade calls did in this process.
+func realCounted(r *evid.Run, dir string, cs int64) {
+	rg := rand.New(rand.NewSource(cs))
+	params := &chaincfg.RegressionNetParams
+	path := filepath.Join(dir, fmt.Sprintf("cnt-%d-%d.db", os.Getpid(), cs))
+	db, err := walletdb.Create("bdb", path, true, 10*time.Second, false)
+	if err != nil {
+		r.Inconclusive(err.Error())
+		return
+	}
+	defer func() { db.Close(); os.Remove(path) }()
+	seed := make([]byte, 32)
+	rg.Read(seed)
+	root, _ := hdkeychain.NewMaster(seed, params)
+	if err := wallet.Create(db, []byte("pub"), []byte("priv"), root, params, time.Unix(1600000000, 0)); err != nil {
+		r.Violation("harness:create", err.Error(), "counted", cs, nil)
+		return
+	}
+	type svc struct {
+		name    string
+		top     []byte
+		mk      func(walletdb.ReadWriteBucket) migration.Manager
+		wind    func(walletdb.ReadWriteBucket)
+		pending []uint32
+	}
+	svcs := []svc{
+		{"wtxmgr", []byte("wtxmgr"), func(b walletdb.ReadWriteBucket) migration.Manager { return wtxmgr.NewMigrationManager(b) },
+			func(b walletdb.ReadWriteBucket) { b.Put([]byte("vers"), []byte{0, 0, 0, 1}) }, []uint32{2}},
+		{"waddrmgr", []byte("waddrmgr"), func(b walletdb.ReadWriteBucket) migration.Manager { return waddrmgr.NewMigrationManager(b) },
+			func(b walletdb.ReadWriteBucket) {
+				b.NestedReadWriteBucket([]byte("main")).Put([]byte("mgrver"), []byte{7, 0, 0, 0})
+			}, nil},
+	}
+	for v := uint32(8); v <= uint32(waddrmgr.LatestMgrVersion); v++ {
+		svcs[1].pending = append(svcs[1].pending, v)
+	}
+	for _, sv := range svcs {
+		walletdb.Update(db, func(tx walletdb.ReadWriteTx) error { sv.wind(tx.ReadWriteBucket(sv.top)); return nil })
+		attempt := func(failAt uint32) ([]uint32, error) {
+			var calls []uint32
+			err := walletdb.Update(db, func(tx walletdb.ReadWriteTx) error {
+				return migration.Upgrade(countMgr{Manager: sv.mk(tx.ReadWriteBucket(sv.top)), calls: &calls, failAt: failAt})
+			})
+			return calls, err
+		}
+		// 1. an attempt whose last pending migration fails after running: rolled back
+		last := sv.pending[len(sv.pending)-1]
+		calls, err := attempt(last)
+		if err == nil || fmt.Sprint(calls) != fmt.Sprint(sv.pending) {
+			r.Violation("c19:real-table:wrong-migrations-invoked", fmt.Sprintf("%s wound back: the failing attempt invoked %v (err %v), pending are %v", sv.name, calls, err, sv.pending), "counted", cs, nil)
+			return
+		}
+		// 2. the retry: every pending migration exactly once, in order
+		calls, err = attempt(0)
+		if err != nil || fmt.Sprint(calls) != fmt.Sprint(sv.pending) {
+			r.Violation("c19:real-table:wrong-migrations-invoked", fmt.Sprintf("%s: the retry after a failed upgrade invoked migrations %v (err %v); each of %v must run exactly once, in order", sv.name, calls, err, sv.pending), "counted", cs, nil)
+			return
+		}
+		// 3. up to date now: nothing runs
+		calls, err = attempt(0)
+		if err != nil || len(calls) != 0 {
+			r.Violation("c19:real-table:up-to-date-service-migrated", fmt.Sprintf("%s is up to date but Upgrade invoked %v (err %v)", sv.name, calls, err), "counted", cs, nil)
+			return
+		}
+		r.Hit("real-table-upgrade-attempts-counted", 3)
+	}
+	r.Case(fmt.Sprint("counted", cs), true)
+}
+
 func main() {
 	// fast scrypt for wallet.Create
 	waddrmgr.SetSecretKeyGen(func(p *[]byte, _ *waddrmgr.ScryptOptions) (*snacl.SecretKey, error) {
 		return snacl.NewSecretKey(p, 16, 8, 1)
 	})
 	r := evid.New(P, "fault_enumeration")
-	r.Rule("(a) version tables of 1..12 distinct numbers from 1..16 in random DECLARED order, some with nil migrations, table handed out as the same slice or as a fresh copy per call; stored version below / at / above the latest; for each table a failure is injected at EVERY position of the list of migrations that must run (plus the no-failure run); a recording migration.Manager over a real bdb namespace, driven inside one walletdb.Update as the wallet does; in a third of the tables each an up-to-date service is listed before it and/or a service with one pending migration after it in the SAME Upgrade call (the up-to-date one must stay untouched, the later one must be upgraded iff the table under test did not fail). Oracle: invoked numbers = sorted pending non-nil ones up to the failing one, each once; error iff failure or stored > latest (ErrReversion); on error the namespace dump equals the one before; on success the recorded version is the latest and SetVersion was called exactly once. (b) a real wallet database whose wtxmgr version is wound back to 1 (and waddrmgr to 7) is opened through wallet.OpenWithRetry with the k-th database write failing, for every k: each failed attempt must return an error and leave both namespaces byte-identical; the fault-free attempt must end at the latest versions with a usable store. Non-trivial = table with at least one migration to run; distinct = distinct (table, stored, failure position).")
+	r.Rule("(a) version tables of 1..12 distinct numbers from 1..16 in random DECLARED order, some with nil migrations, table handed out as the same slice or as a fresh copy per call; stored version below / at / above the latest; for each table a failure is injected at EVERY position of the list of migrations that must run (plus the no-failure run); a recording migration.Manager over a real bdb namespace, driven inside one walletdb.Update as the wallet does; in a third of the tables each an up-to-date service is listed before it and/or a service with one pending migration after it in the SAME Upgrade call (the up-to-date one must stay untouched, the later one must be upgraded iff the table under test did not fail). Oracle: invoked numbers = sorted pending non-nil ones up to the failing one, each once; error iff failure or stored > latest (ErrReversion); on error the namespace dump equals the one before; on success the recorded version is the latest and SetVersion was called exactly once. (b) a real wallet database whose wtxmgr version is wound back to 1 (and waddrmgr to 7) is opened through wallet.OpenWithRetry with the k-th database write failing, for every k: each failed attempt must return an error and leave both namespaces byte-identical; the fault-free attempt must end at the latest versions with a usable store. (c) the real managers' own tables (wtxmgr, waddrmgr) are driven through migration.Upgrade with an invocation-counting wrapper, repeatedly in one process: a failing attempt, the retry, an up-to-date store; each pending migration must be invoked exactly once per attempt, ascending. Non-trivial = table with at least one migration to run; distinct = distinct (table, stored, failure position).")
 	r.Trusted("walletdb/bdb transaction rollback (C11)")
 	dir, _ := os.MkdirTemp("", "c19")
 	defer os.RemoveAll(dir)
@@ -435,6 +539,8 @@ func main() {
 		}
 	})
 	r.Parallel("real", r.N(4, 160), evid.Workers(), func(i int, cs int64) { realCase(r, dir, cs) })
+	r.Parallel("counted", r.N(4, 80), evid.Workers(), func(i int, cs int64) { realCounted(r, dir, cs) })
+	r.Require("real-table-upgrade-attempts-counted", 12)
 	r.Require("upgrade-runs", 1000)
 	r.Require("failure-positions-enumerated", 300)
 	r.Require("newer-database-refused", 30)
